@@ -21,7 +21,7 @@ func init() {
 		ID: "C01", Level: "model_checking",
 		Rule:   "ELX on the real ServeConn: family 'encoding' = one request from a vocabulary, default encoding plus every single deviation (representation x Huffman of each field; every HEADERS/CONTINUATION split offset incl. empty fragments, pairs of offsets in thorough; pad lengths; priority section; every composition of a 3-byte body into <= 3 DATA frames incl. empty and padded ones; END_STREAM on last DATA / empty DATA / trailers); family 'interleave' = 2 (quick) or 3 (thorough) streams of [header block, DATA, DATA+ES] whose later blocks reference dynamic-table entries of earlier ones: every linear extension x every handler completion order x response shapes (no body, buffered small/large, streamed declared/unknown/empty, EOF with last chunk, one byte per read) x 2 preludes. Oracle: handler log == requests sent; frames per stream == handler's response with END_STREAM exactly once. Non-trivial: >= 2 streams or a non-default encoding; distinct by scenario id.",
 		Assume: []string{"header names are compared case-insensitively and order is only required among fields of the same name (fasthttp's request API canonicalises names and groups known headers)", "cookie crumbs are expected joined with '; ' (RFC 7540 8.1.2.5)"},
-		Run:    runC01, Replay: replayC01, Policies: 1, QuickS: 120, ThoroughS: 900,
+		Run:    runC01, Replay: replayC01, Policies: 1, QuickS: 200, ThoroughS: 900,
 	})
 }
 
